@@ -714,7 +714,10 @@ Interpolation Perform_KDE(std::vector<DataPoint> data, double xMin, double xMax,
 	Interpolation result(Interpol_List);
 
 	// 3. Check normalization/ re-normalize.
-	double norm = Integrate(result, xMin, xMax, 1e-8);
+	// The interpolation knows its own integral exactly (piece-wise antiderivative). The adaptive Simpson rule used here before
+	// starts from the two ends and the middle of the window and stops at once when the kernels are narrow enough to vanish at all
+	// of them, which left the estimate un-normalised by many orders of magnitude.
+	double norm = result.Integrate(xMin, xMax);
 	result.Multiply(1.0 / norm);
 
 	return result;
